@@ -88,6 +88,13 @@ func (r *run) checkC04(d *delivery, cl opClass, changed bool, i int) {
 		if len(os) != 1 || os[0] != post.Status.CurrentPlayer {
 			r.viol("C04", "offered-seats", fmt.Sprintf("after %s seats offered actions %v, current player %d", d.st, os, post.Status.CurrentPlayer), i)
 		}
+		// folded and all-in seats are merely asked to pass
+		if cur := post.Status.CurrentPlayer; cur >= 0 && cur < n {
+			p := post.Players[cur]
+			if (p.Fold || p.StackSize == 0) && !(len(p.AllowedActions) == 1 && p.AllowedActions[0] == "pass") {
+				r.viol("C04", "folded-or-all-in-seat-offered-more-than-pass", fmt.Sprintf("seat %d (folded=%v, stack %d) is offered %v: %s", cur, p.Fold, p.StackSize, p.AllowedActions, fmtState(post)), i)
+			}
+		}
 	}
 	if !cl.legit || d.err != nil {
 		return
